@@ -393,6 +393,20 @@ fn operator_from_name(name: &str) -> Option<BinaryOperator> {
     }
 }
 
+/// A negative number is a unary minus applied to a number, so that it has the binding strength
+/// of that operator (otherwise `-{l}` applied to `-5` produces `--5`, which is a comment).
+fn translate_number(number: String) -> sql_ast::Expr {
+    match number.strip_prefix('-') {
+        Some(abs) => sql_ast::Expr::UnaryOp {
+            op: UnaryOperator::Minus,
+            expr: Box::new(sql_ast::Expr::Value(
+                Value::Number(abs.to_string(), false).into(),
+            )),
+        },
+        None => sql_ast::Expr::Value(Value::Number(number, false).into()),
+    }
+}
+
 pub(super) fn translate_literal(l: Literal, ctx: &Context) -> Result<sql_ast::Expr> {
     Ok(match l {
         Literal::Null => sql_ast::Expr::Value(Value::Null.into()),
@@ -400,8 +414,8 @@ pub(super) fn translate_literal(l: Literal, ctx: &Context) -> Result<sql_ast::Ex
             sql_ast::Expr::Value(Value::SingleQuotedString(s).into())
         }
         Literal::Boolean(b) => sql_ast::Expr::Value(Value::Boolean(b).into()),
-        Literal::Float(f) => sql_ast::Expr::Value(Value::Number(format!("{f:?}"), false).into()),
-        Literal::Integer(i) => sql_ast::Expr::Value(Value::Number(format!("{i}"), false).into()),
+        Literal::Float(f) => translate_number(format!("{f:?}")),
+        Literal::Integer(i) => translate_number(format!("{i}")),
         Literal::Date(value) => translate_datetime_literal(sql_ast::DataType::Date, value, ctx),
         Literal::Time(value) => translate_datetime_literal(
             sql_ast::DataType::Time(None, sql_ast::TimezoneInfo::None),
